@@ -570,7 +570,14 @@ class _UnrollComps(ast.NodeTransformer):
                 mp = {t.id: v for t, v in zip(g.target.elts, itm[1].elts)}
             else:
                 return n
-            if not all(isinstance(v, (ast.Constant, ast.Name, ast.Attribute)) for v in mp.values()):
+            local_table = isinstance(g.iter, ast.Name) and any(
+                isinstance(x, ast.Assign) and len(x.targets) == 1 and isinstance(x.targets[0], ast.Name) and x.targets[0].id == g.iter.id
+                for x in ast.walk(self.top))
+            plain = all(isinstance(v, (ast.Constant, ast.Name, ast.Attribute)) for v in mp.values())
+            # the rows of a display bound once in this very function may be any expression (they are read in place, not run twice)
+            readable = local_table and not any(isinstance(x, (ast.Starred, ast.Yield, ast.YieldFrom, ast.Await, ast.NamedExpr))
+                                               for v in mp.values() for x in ast.walk(v))
+            if not (plain or readable):
                 return n
             elts.append(_FoldStr().visit(_Rename(mp).visit(copy.deepcopy(n.elt))))
         return ast.fix_missing_locations(ast.copy_location(ast.List(elts=elts, ctx=ast.Load()), n))
